@@ -48,6 +48,7 @@ type Compiler struct {
 	globalVariables                       []ssa.Variable
 	globalVariablesTypes                  []ssa.Type
 	mutableGlobalVariablesIndexes         []wasm.Index // index to ^.
+	globalVariablesMayAlias               []bool       // imported mutable globals that may be one and the same global.
 	needListener                          bool
 	needSourceOffsetInfo                  bool
 	// br is reused during lowering.
@@ -325,15 +326,28 @@ func (c *Compiler) declareNecessaryVariables() {
 	c.globalVariables = c.globalVariables[:0]
 	c.mutableGlobalVariablesIndexes = c.mutableGlobalVariablesIndexes[:0]
 	c.globalVariablesTypes = c.globalVariablesTypes[:0]
+	// Two imported mutable globals of one type may be resolved to one and the same global.
+	var importedMutable [256]int // by wasm.ValueType
 	for _, imp := range c.m.ImportSection {
 		if imp.Type == wasm.ExternTypeGlobal {
 			desc := imp.DescGlobal
 			c.declareWasmGlobal(desc.ValType, desc.Mutable)
+			if desc.Mutable {
+				importedMutable[desc.ValType]++
+			}
+		}
+	}
+	c.globalVariablesMayAlias = c.globalVariablesMayAlias[:0]
+	for _, imp := range c.m.ImportSection {
+		if imp.Type == wasm.ExternTypeGlobal {
+			desc := imp.DescGlobal
+			c.globalVariablesMayAlias = append(c.globalVariablesMayAlias, desc.Mutable && importedMutable[desc.ValType] > 1)
 		}
 	}
 	for _, g := range c.m.GlobalSection {
 		desc := g.Type
 		c.declareWasmGlobal(desc.ValType, desc.Mutable)
+		c.globalVariablesMayAlias = append(c.globalVariablesMayAlias, false)
 	}
 
 	// TODO: add tables.
